@@ -15,8 +15,8 @@ pub static PROP: PropDef = PropDef {
     builds: opt_and_dbg,
     max_tape: 64,
     cases: |t| match t {
-        Tier::Quick => 200_000,
-        Tier::Thorough => 5_000_000,
+        Tier::Quick => 1_000_000,
+        Tier::Thorough => 12_000_000,
     },
     fixed,
     check,
